@@ -129,7 +129,7 @@ pub fn install_panic_hook() {
             .location()
             .map(|l| (l.file().to_string(), l.line()))
             .unwrap_or_else(|| ("<unknown>".to_string(), 0));
-        let quiet = QUIET.with(|q| q.get());
+        let quiet = QUIET.with(|q| q.get()) && std::env::var_os("SIMCTL_LOUD").is_none();
         LAST_PANIC.with(|p| {
             *p.borrow_mut() = Some(PanicInfo {
                 message,
